@@ -575,6 +575,11 @@ func (e *Engine) oblige(st *State, class string, pos token.Pos, detail string, g
 	// a conjunction is checked conjunct by conjunct (smaller, more stable queries), each assumed once checked
 	for _, g := range splitAnd(goal) {
 		ob := &Oblig{Name: base, Class: class, Pos: p, Goal: g, Detail: detail}
+		if len(g) > 40 && st.typed["fact:"+g] {
+			// textually identical to a fact already assumed on this path (same heap versions): discharged syntactically
+			ob.Goal = "true"
+			ob.Syntactic = true
+		}
 		st.items = append(st.items, Item{Kind: ItOblig, Ob: ob})
 		// assert-then-assume: later obligations on this path are checked under "no earlier failure"
 		if class != "canary" && g != "false" {
